@@ -181,6 +181,55 @@ theorem select_default (s : State) (g : Nat) (cases : List Case) (pick : Nat)
     simp only at hn; subst hn
     simp
 
+/-! ## sent values are snapshots -/
+
+/-- a receive that meets a queued sender on an empty buffer (rendezvous, or the hand-over of a blocked select
+    send) gets exactly the value stored in that queue entry -/
+theorem recv_delivers_queued_value (s : State) (g c : Nat) (e : Entry) (sq : List Entry) (hc : c < s.chans.length)
+    (hq : (getC s c).sendQ = e :: sq) (hb : (getC s c).buf = []) : (doRecv s g c).2 = .recvd e.val true := by
+  unfold doRecv; simp only
+  split
+  · next e' sq' heq =>
+    rw [hq] at heq
+    obtain ⟨h1, h2⟩ := List.cons.inj heq
+    subst h1; subst h2
+    have hsh := fireSend_shrinks (setC s c { getC s c with sendQ := sq }) e false c
+    have hfr := (fireSend_frame s c { getC s c with sendQ := sq } rfl e false).1 c hc
+    have hg : getC (setC s c { getC s c with sendQ := sq }) c = { getC s c with sendQ := sq } := by simp [getC_def, hc]
+    rw [← getC_def, ← getC_def, hg] at hsh
+    generalize fireSend (setC s c { getC s c with sendQ := sq }) e false = s1 at hsh hfr ⊢
+    have hbuf : (getC s1 c).buf = [] := by rw [hsh.buf]; exact hb
+    unfold recvTail; simp only
+    have hg1 : getC (setC s1 c { getC s1 c with buf := (getC s1 c).buf ++ [e.val], hCommit := (getC s1 c).hCommit ++ [e.val] }) c
+        = { getC s1 c with buf := (getC s1 c).buf ++ [e.val], hCommit := (getC s1 c).hCommit ++ [e.val] } := by
+      simp [getC_def, hfr.1]
+    rw [hg1]; simp [hbuf]
+  · next heq => rw [hq] at heq; cases heq
+
+/-- **send_value_snapshot**: the channel machinery stores VALUES. In every history, every queued send entry —
+    plain or select case — carries exactly the value of the send operation its goroutine is suspended in (the
+    operation is fixed while the goroutine sleeps), a receiver that takes a queued sender's value gets exactly that
+    value (`recv_delivers_queued_value`), and what receivers got plus what is buffered is exactly what was committed
+    (`fifo_conservation`). Values of the model are immutable, so nothing the sender does after initiating a send can
+    change what is delivered. What this does NOT cover: that the COMPILER hands `$send` / `$select` a private copy
+    of a struct or array value — that is the structure tie `compiled-send-clone` and the snapshot programs of the check. -/
+theorem send_value_snapshot (evs : List Event) :
+    (∀ k e, e ∈ (getC (reach evs) k).sendQ →
+      match e.sel, (getG (reach evs) e.gid).blocked with
+      | none, some (.send c v) => c = k ∧ v = e.val
+      | some i, some (.select cs) => cs.getD i .dflt = .send k e.val
+      | _, _ => False) ∧
+    (∀ ch ∈ (reach evs).chans, ch.hRecv ++ ch.buf = ch.hCommit) := by
+  have h : GInv (reach evs) := runAll_ginv evs _ init_ginv
+  refine ⟨?_, fun ch hm => (fifo_conservation evs ch hm).1⟩
+  generalize reach evs = s at *
+  intro k e he
+  have hm := (h.own k true e (by rw [ents_send]; exact he)).mtch
+  cases hs : e.sel <;> cases hb : (getG s e.gid).blocked with
+  | none => simp [Match, hs, hb] at hm
+  | some b =>
+    cases b <;> simp [Match, hs, hb, caseOf] at hm ⊢ <;> first | exact hm | exact ⟨hm.1, hm.2⟩
+
 /-! ## close -/
 
 /-- **close_semantics** (full strength, repaired runtime): for every history, `close(c)` by the running goroutine on
